@@ -84,14 +84,14 @@ Definition chk_bf (g : graph) (s : Z) (d pred : list (Z * Z)) (flag : bool) : bo
 Definition show_bf (g : graph) (s : Z) := bf_model g s.
 (** bfs / dfs visit exactly the model's closure *)
 Definition chk_reach (g : graph) (s : Z) (l : list Z) : bool := same_set l (reach_model g s).
-(** Kruskal as implemented (with the seen_edges filter): the chosen edge ids, in order *)
+(** Kruskal as implemented: the chosen edge ids, in order, and the total weight *)
 Fixpoint zlist_eqb (a b : list Z) : bool :=
   match a, b with [] , [] => true | x :: r, y :: t => (x =? y) && zlist_eqb r t | _, _ => false end.
 Definition chk_kruskal (g : graph) (ids : list Z) (total : Z) : bool :=
   let T := kruskal_model g in zlist_eqb (map eid T) ids && (wsum T =? total).
 Definition show_kruskal (g : graph) := map eid (kruskal_model g).
-(** the repaired Kruskal always passes the certificate (evaluated on every generated graph) *)
-Definition chk_kruskal_fixed (g : graph) : bool := msf_cert g (kruskal_fixed g).
+(** what the code before repair f6a1e05 returned (kept for the _pre_refuted theorem and the seeded self-test) *)
+Definition show_kruskal_pre (g : graph) := map eid (kruskal_pre g).
 (** Dijkstra as transcribed: the distances of the model equal the implementation's (which of several
     equal-distance heap entries is popped first is not observable in the distances; predecessors may
     differ on ties and are certified separately by [c_pred]).  Fuel: with non-negative weights there
